@@ -963,8 +963,23 @@ def transfer_mirror(rtext, mirror, log, where, variant="main", is_fn=True):
             ed.insert(R[L["body_open"]].end, " match %s.next() { None => { break; } Some(%s) => { proof { %s_k = %s_k + 1; } " % (nm, pat, nm, nm))
             ed.insert(R[L["body_close"]].start, " } } ")
             log.append({"rule": "R10-for-desugar", "before": before.strip(), "after": "let mut %s = IntoIterator::into_iter(..); loop { match %s.next() { None => break, Some(%s) => {..} } }" % (nm, nm, pat), "where": where})
+    BOUND = (";", "{", "}")
     for pos, text, glue in ann:
         off = None
+        if not exact and glue == "block" and pos - 1 >= 0 and code[pos - 1] in BOUND and (pos - 1) not in a2b:
+            # drift: a statement-level annotation (it followed `;`, `{` or `}` in the mirror) whose left
+            # context did not survive is placed at the nearest statement boundary to the LEFT of its
+            # right context - never inside a statement
+            r = pos
+            while r < len(code) and r not in a2b:
+                r += 1
+            if r < len(code):
+                b = a2b[r] - 1
+                while b >= 0 and R[b].text not in BOUND:
+                    b -= 1
+                if b >= 0:
+                    ed.insert(R[b].end, "\n" + text + "\n")
+                    continue
         if pos - 1 >= 0 and (pos - 1) in a2b:
             off = R[a2b[pos - 1]].end
         elif pos in a2b:
